@@ -31,6 +31,7 @@ def _nontrivial(lines):
     in_create = {}
     in_scan = {}
     in_release = {}
+    in_tick = {}
     for l in lines:
         w = l.split()
         if len(w) < 3:
@@ -53,6 +54,12 @@ def _nontrivial(lines):
                     kinds.add("create-vs-scan")
             elif w[2] == "ret" and w[3] == "lwm":
                 in_scan[t] = False
+            elif w[2] == "call" and w[3] == "tick":
+                if any(in_tick.values()):
+                    kinds.add("concurrent-ticks")
+                in_tick[t] = True
+            elif w[2] == "ret" and w[3] == "tick":
+                in_tick[t] = False
             elif w[2] == "call" and w[3] == "release":
                 in_release[t] = True
             elif w[2] == "ret" and w[3] == "release":
@@ -82,6 +89,8 @@ def _classify(ctx, mode, env, runs, lockstep, dist, distinct, samples):
         dist["verdicts"][r["verdict"]] = dist["verdicts"].get(r["verdict"], 0) + 1
         dist["max_trace"] = max(dist["max_trace"], len(r["lines"]))
         kinds = _nontrivial(r["lines"])
+        if mode == "big":
+            kinds.add("many-accessors")
         for l in r["lines"][-3:]:
             m = re.search(r" ev stats .* stale (\d+)", l)
             if m:
@@ -93,8 +102,15 @@ def _classify(ctx, mode, env, runs, lockstep, dist, distinct, samples):
         text = "mode=%s seed=%d env=%s\n%s" % (mode, r["seed"], env, "\n".join(r["lines"][-500:]))
         if r["oracle"]:
             dist["oracle"] += 1
-            kind = r["oracle"][0].split("ORACLE", 1)[1].split()[0]
-            ctx.failing_input("oracle:%s:%s" % (mode, kind), text)
+            okinds = [l.split("ORACLE", 1)[1].split()[0] for l in r["oracle"]]
+            # the property's own oracle (freed cell dereferenced / mark passed an open region) first
+            kind = next((k for k in okinds if k in ("uaf", "mark-passed")), okinds[0])
+            key = "oracle:%s:%s" % (mode, kind)
+            if sum(1 for k, _ in ctx.failing if k == key) < 3:
+                if kind in ("uaf", "mark-passed"):
+                    ctx.failing.insert(0, (key, text))
+                else:
+                    ctx.failing_input(key, text)
         elif r["races"]:
             ctx.failing_input("race:%s" % mode, text)
         elif r["verdict"] != "ok":
@@ -108,7 +124,9 @@ def _classify(ctx, mode, env, runs, lockstep, dist, distinct, samples):
                     ctx.broke("correspondence", "E-CONC lock-step c09 mode=%s seed=%d" % (mode, r["seed"]), "%s\n%s" % (r["replay"], text))
         if len(samples) < 1 and "held" in kinds and len(r["lines"]) > 60:
             samples.append([l if " tbl " not in l else " ".join(l.split()[:4]) + " <table>" for l in r["lines"][:70]])
-        if len(ctx.failing) > 5:      # enough concrete failing inputs; broken obligations alone never stop the search
+        # enough concrete failing inputs, among them one of the property's own oracle; broken obligations alone
+        # never stop the search
+        if len(ctx.failing) > 5 and any(k.endswith(":uaf") or k.endswith(":mark-passed") for k, _ in ctx.failing):
             return False
     return True
 
@@ -145,7 +163,7 @@ def run(ctx):
         if not m:
             continue
         mode, seed, env = m.group(1), int(m.group(2)), eval(m.group(3))
-        lockstep = env.get("VRT_MEM") != "view"
+        lockstep = env.get("VRT_MEM") != "view" and mode != "big"
         runs = ctx.econc(exe, drv if lockstep else None, [mode], seed, 1, env=env)
         dist["modes"]["corpus"] = dist["modes"].get("corpus", 0) + len(runs)
         _classify(ctx, mode, env, runs, lockstep, dist, distinct, samples)
@@ -155,7 +173,9 @@ def run(ctx):
             ("acc", n // 3, True, {"VRT_STICK": "0"}),
             # weak-memory simulation on the real code (stale reads allowed by the view model): oracle only
             ("acc", n, False, view), ("tls", n, False, view),
-            ("acc", n // 2, False, dict(view, VRT_STALE="70")), ("tls", n // 2, False, dict(view, VRT_STALE="70", VRT_STICK="0"))]
+            ("acc", n // 2, False, dict(view, VRT_STALE="70")), ("tls", n // 2, False, dict(view, VRT_STALE="70", VRT_STICK="0")),
+            # unusual size: 65535 ... 131072 accessors ever created, regions on probe accessors around the 2^16 wrap
+            ("big", max(6, n // 40), False, {})]
     for mode, cnt, lockstep, env in plan:
         runs = ctx.econc(exe, drv if lockstep else None, [mode], seed0, cnt, env=env)
         key = mode + ("/" + ",".join("%s=%s" % kv for kv in sorted(env.items())) if env else "")
@@ -167,12 +187,13 @@ def run(ctx):
     ctx.cov["traces_validated_against_impl"] = dist["replay_ok"]
     ctx.cov["rule"] = ("one case = one seeded program (1-3 readers x 1-3 regions with nesting depth 1-3, two dereferences per region with a yield in between; "
                        "Accessor style: release / re-create, 1/4 of the regions handed over LOCKED to a helper thread through a release/acquire mailbox; "
-                       "1 writer x 1-3 unlink+tick; reclaimer = the writer or a separate thread fed through a release/acquire channel; final scan at quiescence) "
+                       "1-3 concurrent writers x 1-3 unlink+tick, 0-2 threads that only tick; reclaimer = the writers or a separate thread fed through a release/acquire channel; final scan at quiescence) "
                        "under one seeded schedule (random with 5 stickiness levels, stickiness 0, or PCT); per seed the block table is pre-reserved (4 slots per block) "
                        "or starts empty with 2 slots per block (growth races with the scan); SC passes are replayed in lock-step, VRT_MEM=view passes (stale reads "
                        "per the view model, 35% / 70% of the loads) are oracle only. non-trivial = some low_water_mark() was held back by an open region, or an "
                        "Accessor changed threads, or an id allocation overlapped a scan, or the table grew, or an Accessor was released inside a region "
-                       "(1/8 of the regions); distinct by trace hash (addresses removed)")
+                       "(1/8 of the regions), or two tick() calls overlapped; mode big: 65535-131072 accessors created in bulk, sequential regions on 6 probe accessors "
+                       "(first / middle / last / around the 2^16 wrap), oracle only; distinct by trace hash (addresses removed)")
     ctx.cov["samples"] = samples or [["<no sample>"]]
 
 
@@ -185,7 +206,7 @@ def replay(ctx, path):
     mode, seed, env = m.group(1), int(m.group(2)), eval(m.group(3))
     exe, log = build_vrt_exe("c09", SRCS, repo_cpp=REPO_CPP)
     drv = ctx.driver("drv_C09")
-    lockstep = env.get("VRT_MEM") != "view"
+    lockstep = env.get("VRT_MEM") != "view" and mode != "big"
     runs = ctx.econc(exe, drv if lockstep else None, [mode], seed, 1, env=env)
     r = runs[0]
     print("\n".join(r["lines"]))
